@@ -579,3 +579,67 @@ Proof.
   split; [exact H2|]. split; [exact H3|].
   intros Hr. rewrite Hr in H1. simpl in H1. apply andb_true_iff in H1. exact H1.
 Qed.
+
+(* ---------- reading stdin ---------- *)
+Lemma copy_stdin_err : forall cs, In CErr cs -> snd (copy_stdin cs) = false.
+Proof.
+  induction cs as [|c cs IH]; intros H; [contradiction|].
+  destruct c as [b|]; simpl; [|reflexivity].
+  destruct H as [H|H]; [discriminate|].
+  specialize (IH H). destruct (copy_stdin cs) as [bs ok]. exact IH.
+Qed.
+
+Lemma copy_stdin_ok : forall cs, ~ In CErr cs ->
+  copy_stdin cs = (flat_map (fun c => match c with CData b => b | CErr => [] end) cs, true).
+Proof.
+  induction cs as [|c cs IH]; intros H; [reflexivity|].
+  destruct c as [b|]; simpl.
+  - rewrite IH; [reflexivity|]. intros Hc. apply H. right. exact Hc.
+  - exfalso. apply H. left. reflexivity.
+Qed.
+
+(* any failing read makes the result an error, wherever it occurs; without one the result is
+   the concatenation of the data *)
+Lemma read_all_spec_l : forall cs,
+  (In CErr cs -> read_all cs = None /\ stdin_res_of cs = SCopyFail)
+  /\ (~ In CErr cs ->
+      read_all cs = Some (flat_map (fun c => match c with CData b => b | CErr => [] end) cs)).
+Proof.
+  intros cs. unfold read_all, stdin_res_of. split.
+  - intros H. pose proof (copy_stdin_err cs H) as He.
+    destruct (copy_stdin cs) as [bs ok]. simpl in He. subst ok. split; reflexivity.
+  - intros H. rewrite (copy_stdin_ok cs H). reflexivity.
+Qed.
+
+Lemma stdin_copyfail_prep : forall o e c, e_stdin e = SCopyFail ->
+  streamInOut ADash o e c = PErr ErrStdinRead [EvTempInCreate; EvTempInRemove] c.
+Proof. intros o e c H. unfold streamInOut, open_input. rewrite H. reflexivity. Qed.
+
+(* stdin_error_is_fatal: a failing read at ANY position makes every command reading "-" fail:
+   non-zero exit, nothing on stdout, nothing written to the output, the temporary copy removed,
+   the output path untouched *)
+Lemma stdin_error_is_fatal_l : forall cs, In CErr cs ->
+  forall d c o e acts ok init, e_stdin e = stdin_res_of cs ->
+  let r := run_stream d c ADash o e acts ok in
+  snd r = false /\ exit_status (snd r) <> 0%Z
+  /\ stdout_of (fst r) = [] /\ outfile_of (fst r) = []
+  /\ f_tin (final_fs SnkFile init (fst r)) = false
+  /\ f_out (final_fs SnkFile init (fst r)) = init.
+Proof.
+  intros cs Hin d c o e acts ok init He.
+  destruct (proj1 (read_all_spec_l cs) Hin) as [_ Hs]. rewrite Hs in He.
+  unfold run_stream. rewrite (stdin_copyfail_prep o e c He). simpl.
+  repeat split; try reflexivity. discriminate.
+Qed.
+
+(* merging the two checks drops a read error that follows a partial read *)
+Lemma stdin_merged_refuted : exists cs, In CErr cs /\ stdin_res_merged cs = SOk /\ stdin_res_of cs = SCopyFail.
+Proof. exists [CData [37%N]; CErr]. split; [right; left; reflexivity|]. vm_compute. split; reflexivity. Qed.
+
+(* the generated shape of readSeekerFromStdin *)
+Definition stdin_copy_shape_ok : bool :=
+  sc_err_check_directly_after stdin_copy && sc_err_check_independent_of_n stdin_copy
+  && sc_err_returns stdin_copy && sc_empty_check stdin_copy.
+
+Lemma stdin_copy_shape_l : stdin_copy_shape_ok = true.
+Proof. vm_compute. reflexivity. Qed.
